@@ -4,12 +4,17 @@ C01 — batch span processor (sdk/trace/batch_span_processor.go) as a labelled t
 Labels are the atomic actions of the Go code (one per synchronisation point: atomic load/store,
 channel send/receive, mutex-protected region, exporter call/return). Producers (`OnEnd`) and
 `ForceFlush` callers form unbounded pools (`inflight`, `ffs`); there is one worker goroutine
-(`processQueue` then `drainQueue`) and one shutdown goroutine (`sync.Once`).
+(`processQueue` then `drainQueue`). `Shutdown` may be called by any number of goroutines: the call that wins
+`stopOnce` (`sync.Once.Do`) runs the once-body and its goroutine (labels `sdCall` … `sdReturnOk`, phases `SPhase`);
+every other call (`sdCallLate cid`) finds the once taken, blocks inside `Once.Do` until the winner's function has
+returned, and then returns nil (`sdReturnLate cid`) — pool `sds`.
 
 Ghost components (not in the Go state): `accepted`, `seen`, `droppedIds`, `exported` (the
 exporter's log, appended at ExportSpans entry), the `pre` sets of ForceFlush/Shutdown.
-Only sampled spans are modelled: an unsampled span is discarded by `enqueue*` before any shared
-state is touched (`IsSampled` test first), the harness observes that separately.
+Unsampled spans: `OnEnd` of an unsampled span passes the `stopped` check and is then discarded by
+`enqueueDrop` / `enqueueBlockOnQueueFull` (`IsSampled` test first, in both modes) before any shared state is
+touched — it is neither queued nor counted as dropped: label `endUnsampled`, a no-op on the Go state that only
+records the id in the ghost `unsampled`. Span ids are unique over sampled and unsampled spans.
 -/
 namespace Otel.C01
 
@@ -54,6 +59,14 @@ inductive SPhase where
   | none | called | stored | closed | shut
 deriving DecidableEq, Repr
 
+/-- a Shutdown call that did not win `stopOnce`: blocked in `sync.Once.Do` until the winner's function has
+returned (`done` stored, once-mutex released), then it returns nil -/
+structure SD where
+  cid : Nat
+  pre : List Nat        -- ghost: ids whose End had returned when this Shutdown was called
+  ret : Bool            -- returned nil
+deriving DecidableEq, Repr
+
 structure St where
   cap : Nat
   maxB : Nat
@@ -67,25 +80,30 @@ structure St where
   inflight : List Nat := []      -- OnEnd passed the `stopped` check, not yet sent
   accepted : List Nat := []      -- ghost: every id that passed the check
   seen : List Nat := []          -- ghost: ids whose End returned (sent or dropped)
+  unsampled : List Nat := []     -- ghost: ids of unsampled spans whose End returned (never queued, never counted)
   stopped : Bool := false
   stopClosed : Bool := false
   w : WPhase := .run
   ffs : List FF := []
   sd : SPhase := .none
   sdPre : List Nat := []         -- ghost: `seen` when Shutdown was called
-  sdRetOk : Bool := false        -- Shutdown returned nil
+  sdRetOk : Bool := false        -- the winning Shutdown call returned nil (its once-function returned: `stopOnce` is done)
+  sds : List SD := []            -- the Shutdown calls that did not win `stopOnce`
 deriving Repr
 
 inductive Lbl where
   | accept (id : Nat)            -- OnEnd: stopped.Load() == false (sampled span, exporter non-nil)
   | send (id : Nat)              -- enqueueDrop / enqueueBlockOnQueueFull
+  | endUnsampled (id : Nat)      -- OnEnd of an unsampled span: `IsSampled` false in enqueue*, returns at once
   | wRecv                        -- worker: receive from queue (span → hand, marker → close(flushed) / ignored in drain)
   | wAppend                      -- worker: Lock; append; shouldExport; Unlock
   | wTimer                       -- worker: <-timer.C in processQueue
   | wStop                        -- worker: <-stopCh in processQueue
   | wDrainEmpty                  -- worker: `default:` branch of drainQueue
   | wExportStart                 -- worker: exportSpans: Lock; len>0 ⇒ ExportSpans entry, else Unlock at once
-  | exportEnd                    -- whoever is inside the exporter: ExportSpans returns; batch reset; Unlock
+  | exportEnd (ok : Bool)        -- the worker's ExportSpans call returns nil (`ok`) or an error — an exporter
+                                 -- failure or the deadline of the ExportTimeout context; the batch is reset and the
+                                 -- mutex released REGARDLESS of the result (the worker only reports the error)
   | ffCall (fid : Nat)
   | ffCheck (fid : Nat)
   | ffEnqueue (fid : Nat)
@@ -94,7 +112,9 @@ inductive Lbl where
   | ffExportEndOk (fid : Nat)
   | ffExportEndErr (fid : Nat)
   | ffCancel (fid : Nat)         -- ctx.Done wins any of ForceFlush's selects
-  | sdCall | sdStore | sdClose | sdExporterShutdown | sdReturnOk
+  | sdCall | sdStore | sdClose | sdExporterShutdown | sdReturnOk   -- the Shutdown call that wins `stopOnce`
+  | sdCallLate (cid : Nat)       -- a Shutdown call that finds `stopOnce` taken: blocked in `Once.Do`
+  | sdReturnLate (cid : Nat)     -- `Once.Do` returns after the winner's function returned: Shutdown returns nil
 deriving DecidableEq, Repr
 
 def spansOf : List Item → List Nat
@@ -119,8 +139,11 @@ def afterExport : WPhase → WPhase
 
 def step (s : St) : Lbl → Option St
   | .accept id =>
-    if s.stopped ∨ id ∈ s.accepted then none
+    if s.stopped ∨ id ∈ s.accepted ∨ id ∈ s.unsampled then none
     else some { s with inflight := id :: s.inflight, accepted := id :: s.accepted }
+  | .endUnsampled id =>
+    if id ∈ s.accepted ∨ id ∈ s.unsampled then none
+    else some { s with unsampled := id :: s.unsampled }
   | .send id =>
     if id ∈ s.inflight then
       if s.queue.length < s.cap then
@@ -156,7 +179,7 @@ def step (s : St) : Lbl → Option St
       if s.batch = [] then some { s with w := afterExport s.w }
       else some { s with busy := some .worker, exported := s.exported ++ [s.batch], batch := [] }
     else none
-  | .exportEnd =>
+  | .exportEnd _ =>
     match s.busy with
     | some .worker => some { s with busy := none, w := afterExport s.w }
     | _ => none
@@ -196,6 +219,13 @@ def step (s : St) : Lbl → Option St
   | .sdClose => if s.sd = .stored then some { s with sd := .closed, stopClosed := true } else none
   | .sdExporterShutdown => if s.sd = .closed ∧ s.w = .exited then some { s with sd := .shut } else none
   | .sdReturnOk => if s.sd = .shut ∧ s.sdRetOk = false then some { s with sdRetOk := true } else none
+  | .sdCallLate cid =>
+    if s.sd = .none ∨ s.sds.any (·.cid = cid) then none
+    else some { s with sds := { cid := cid, pre := s.seen, ret := false } :: s.sds }
+  | .sdReturnLate cid =>
+    if s.sdRetOk ∧ s.sds.any (fun c => c.cid = cid ∧ c.ret = false) then
+      some { s with sds := s.sds.map fun c => if c.cid = cid then { c with ret := true } else c }
+    else none
 
 def init (cap maxB : Nat) (blocking : Bool) : St := { cap := cap, maxB := maxB, blocking := blocking }
 
